@@ -440,6 +440,9 @@ class Interp:
             if isinstance(dec, Ext) and dec.dotted in ('functools.singledispatch', 'singledispatch') and isinstance(v, FuncRef):
                 v = self.models.SingleDispatch(self, v)
                 continue
+            if isinstance(dec, Ext) and dec.dotted in ('contextlib.contextmanager', 'contextmanager') and isinstance(v, FuncRef):
+                v = self.models.ContextManagerFactory(v)
+                continue
             if isinstance(dec, (Ext, Builtin, Sym, Term)):
                 raise Fail(f'decorator {ast.unparse(d)[:40]} of {f.qual} is not modelled')
             v = self.call(dec, [v], {}, d)
@@ -627,7 +630,7 @@ class Interp:
             import threading
             self.interp, self.f, self.fr = interp, f, fr
             self.to_gen, self.to_main = threading.Semaphore(0), threading.Semaphore(0)
-            self.item, self.done, self.exc, self.thread = None, False, None, None
+            self.item, self.done, self.exc, self.thread, self.pending = None, False, None, None, None
             self.cur, self.depth = list(interp.cur), interp.depth
 
         def body(self):
@@ -645,6 +648,16 @@ class Interp:
             self.item = v
             self.to_main.release()
             self.to_gen.acquire()
+            if self.pending is not None:
+                e, self.pending = self.pending, None
+                raise e                 # generator.throw(): the exception appears at the yield the body is suspended in
+
+        def throw(self, exc):
+            if self.done or self.thread is None:
+                self.done = True
+                raise exc
+            self.pending = exc
+            return self.next()
 
         def next(self):
             import threading
@@ -1849,7 +1862,9 @@ class Interp:
             if self.is_generator(node):
                 fr.gen = self.Coroutine(self, f, fr)
                 fr.gen.cur = list(self.cur)
-                return IterV(gen=fr.gen.pump())
+                iv = IterV(gen=fr.gen.pump())
+                iv.co = fr.gen
+                return iv
             try:
                 self.block(node.body, fr)
             except ReturnEx as r:
